@@ -52,8 +52,9 @@ package cross_chain_manager
 //@   ensures[c21-router-inactive] r1 == nil ==> active
 //@   callsite[c21-proposal-gated] MakeDepositProposal#1 requires Store == old(Store) && Store[common.blackKey(src)] == None && Store[side_chain_manager.scKey("sideChain", src)] != None && active
 //@   -- gates on the destination chain dominate every way of committing the outbound request
-//@   callsite[c21-target-gated] MakeTransaction#1 requires Store[common.blackKey(arg1.ToChainID)] == None && Store[side_chain_manager.scKey("sideChain", arg1.ToChainID)] != None && arg2 == src
-//@   callsite[c21-target-gated-btc] MakeTransaction#2 requires Store[common.blackKey(arg1.ToChainID)] == None && Store[side_chain_manager.scKey("sideChain", arg1.ToChainID)] != None && arg2 == src
+//@   callsite[c21-target-gated-btc] MakeTransaction#1 requires Store[common.blackKey(arg1.ToChainID)] == None && Store[side_chain_manager.scKey("sideChain", arg1.ToChainID)] != None && arg2 == src
+//@   callsite[c21-target-gated-ripple] MakeTransaction#2 requires Store[common.blackKey(arg1.ToChainID)] == None && Store[side_chain_manager.scKey("sideChain", arg1.ToChainID)] != None && arg2 == src
+//@   callsite[c21-target-gated-account] MakeTransaction#3 requires Store[common.blackKey(arg1.ToChainID)] == None && Store[side_chain_manager.scKey("sideChain", arg1.ToChainID)] != None && arg2 == src
 
 // ---- blacklist administration: consensus operator only (C18); exact effect on the gate (C21) --------
 //@ func BlackChain
